@@ -103,8 +103,14 @@ def expected_targets(truth, conf, gdisable, name):
     if truth['items'].get(name, {}).get('kind') not in ('ProcedureItem', 'ModuleItem'):
         # bindings / interfaces name their dependencies by bare procedure or binding names: whether an entry such
         # as 'kb_r3' also addresses the binding '<type>%kb_r3' is left open
-        for k in [k for k in must if L.match_keys(k.split('%')[-1], own, patterns=True)]:
+        mod = name.split('#')[0]
+
+        def bare(k):
+            return f"{mod}#{k.split('%')[-1]}"
+        for k in [k for k in must if L.match_keys(bare(k), own, patterns=True)]:
             del must[k]
+        for k in [k for k in mustnot if not L.match_keys(bare(k), own, patterns=True)]:
+            del mustnot[k]
     own_module_excluded = '#' in name and name.split('#')[0] and \
         bool(L.match_keys(name.split('#')[0], own, patterns=True))
     return must, mustnot, own_module_excluded
@@ -246,6 +252,9 @@ def check_manifest(man, log, err, summary, truth, exp, config, cnt, viol):
                 lack = sorted(set(must) - got_t)
                 if lack:
                     how = ':own-module-in-exclusion-list' if own_excl else ''
+                    if not how and all(must[k].split('#')[-1] != k and
+                                       truth['items'].get(must[k], {}).get('kind') == 'TypeDefItem' for k in lack):
+                        how = ':renamed-type-import'
                     viol(f'process:targets-miss-dependency:{kind}{how}', f'{n}: targets {sorted(got_t)} lack the '
                          f'non-blocked dependencies {lack} (block={conf.get("block")}, disable={conf.get("disable")})')
                 bad = sorted(set(mustnot) & got_t)
